@@ -1,15 +1,57 @@
+import BrushVerif.Drv.C01
+import BrushVerif.Drv.C02
+import BrushVerif.Drv.C03
+import BrushVerif.Drv.C04
+import BrushVerif.Drv.C05
+import BrushVerif.Drv.C06
+import BrushVerif.Drv.C07
+import BrushVerif.Drv.C08
+import BrushVerif.Drv.C09
+import BrushVerif.Drv.C10
+import BrushVerif.Drv.C11
+import BrushVerif.Drv.C12
+import BrushVerif.Drv.C13
+import BrushVerif.Drv.C14
+import BrushVerif.Drv.C15
+import BrushVerif.Drv.C16
+import BrushVerif.Drv.C17
+import BrushVerif.Drv.C18
+import BrushVerif.Drv.C19
 import BrushVerif.Drv.C20
-/-! `drv`: one request per line (`<property> <payload tokens…>`), one response line each. -/
+/-! `drv`: one request per line (`<property> <payload tokens…>`), one response line each.
+Payload tokens are space separated; each module's `handle` gets the tokens after the property id. -/
 open BrushVerif.Wire
+
+def table : List (String × (List Str → Str)) := [
+  ("C01", BrushVerif.Drv.C01.handle),
+  ("C02", BrushVerif.Drv.C02.handle),
+  ("C03", BrushVerif.Drv.C03.handle),
+  ("C04", BrushVerif.Drv.C04.handle),
+  ("C05", BrushVerif.Drv.C05.handle),
+  ("C06", BrushVerif.Drv.C06.handle),
+  ("C07", BrushVerif.Drv.C07.handle),
+  ("C08", BrushVerif.Drv.C08.handle),
+  ("C09", BrushVerif.Drv.C09.handle),
+  ("C10", BrushVerif.Drv.C10.handle),
+  ("C11", BrushVerif.Drv.C11.handle),
+  ("C12", BrushVerif.Drv.C12.handle),
+  ("C13", BrushVerif.Drv.C13.handle),
+  ("C14", BrushVerif.Drv.C14.handle),
+  ("C15", BrushVerif.Drv.C15.handle),
+  ("C16", BrushVerif.Drv.C16.handle),
+  ("C17", BrushVerif.Drv.C17.handle),
+  ("C18", BrushVerif.Drv.C18.handle),
+  ("C19", BrushVerif.Drv.C19.handle),
+  ("C20", BrushVerif.Drv.C20.handle)
+]
 
 def dispatch (line : String) : String :=
   match tokens line.toList with
   | [] => "bad-request"
   | p :: rest =>
-    let r : Str :=
-      if p = "C20".toList then BrushVerif.Drv.C20.handle rest
-      else "bad-property".toList
-    String.ofList r
+    match table.find? (fun e => e.1.toList = p) with
+    | some e => String.ofList (e.2 rest)
+    | none => "bad-property"
 
 partial def loop (h : IO.FS.Stream) (out : IO.FS.Stream) : IO Unit := do
   let line ← h.getLine
